@@ -24,6 +24,7 @@
      model MC_V3000 checks DecodeV3000(RenderV3000(M, c)) = M for every c and hands the texts to
      the replayer.                                                                          *)
 EXTENDS Integers, Sequences, FiniteSets, TLC, SequencesExt, FiniteSetsExt, Functions
+SubstringKeys == FALSE        \* overridden (<-) by the negative-control configuration
 
 Chr(s, i) == IF i >= 1 /\ i <= Len(s) THEN SubSeq(s, i, i) ELSE ""
 StartsWith(s, p) == Len(s) >= Len(p) /\ SubSeq(s, 1, Len(p)) = p
@@ -59,10 +60,15 @@ Splice(lines) ==
        ELSE IF ~StartsWith(lines[2], V30) THEN <<"!ERROR">>
        ELSE Splice(<<SubSeq(c, 1, Len(c) - 1) \o SubSeq(lines[2], 8, Len(lines[2]))>> \o SubSeq(lines, 3, Len(lines)))
 
-\* KEY=value with an exact key; 0 when absent (for CHG, RAD, MASS a written 0 is the default as well)
-PropHits(toks, key) == {i \in 9..Len(toks) : StartsWith(toks[i], key \o "=") /\ IsInt(SubSeq(toks[i], Len(key) + 2, Len(toks[i])))}
+\* KEY=value with an exact key; 0 when absent (for CHG, RAD, MASS a written 0 is the default as well).
+\* SubstringKeys = TRUE is the pinned tree's reading ("CHG" anywhere in the token: EXACHG=1 counts as CHG=1) -- negative control
+HasSub(t, key) == \E i \in 1..(Len(t) - Len(key) + 1) : SubSeq(t, i, i + Len(key) - 1) = key
+EqPos(t) == Min({i \in 1..Len(t) : Chr(t, i) = "="} \cup {Len(t) + 1})
+PropHits(toks, key) == IF SubstringKeys
+                       THEN {i \in 9..Len(toks) : HasSub(toks[i], key) /\ IsInt(SubSeq(toks[i], EqPos(toks[i]) + 1, Len(toks[i])))}
+                       ELSE {i \in 9..Len(toks) : StartsWith(toks[i], key \o "=") /\ IsInt(SubSeq(toks[i], Len(key) + 2, Len(toks[i])))}
 Prop(toks, key) == LET hits == PropHits(toks, key) IN
-                   IF hits = {} THEN 0 ELSE Int10(SubSeq(toks[Max(hits)], Len(key) + 2, Len(toks[Max(hits)])))
+                   IF hits = {} THEN 0 ELSE Int10(SubSeq(toks[Max(hits)], EqPos(toks[Max(hits)]) + 1, Len(toks[Max(hits)])))
 
 DErr(w) == [ok |-> FALSE, why |-> w]
 DecodeV3000(rawlines) ==
